@@ -7,8 +7,9 @@ pub fn run(_args: &[String]) -> i32 {
     let mut evaluated = 0u64;
     let dir = tempfile::tempdir().expect("tempdir");
     let envs: [Option<&str>; 3] = [None, Some(""), Some("1")];
-    let files: [Option<&str>; 4] = [None, Some("a\nb\n"), Some("a\r\nb\r\n"), Some("")];
-    let gots = ["a\nb\n", "a\nb", "a\r\nb\r\n", "", "あ\n"];
+    // lone CRs (not followed by LF) are content: only CRLF is normalised
+    let files: [Option<&str>; 7] = [None, Some("a\nb\n"), Some("a\r\nb\r\n"), Some(""), Some("a\rb\r\nc\n"), Some("\r\r\n"), Some("a\rb\n")];
+    let gots = ["a\nb\n", "a\nb", "a\r\nb\r\n", "", "あ\n", "a\rb\nc\n", "ab\nc\n", "\r\n", "\n", "a\rb\n", "ab\n"];
     for env in envs {
         for file in files {
             for got in gots {
